@@ -86,6 +86,14 @@ type ChartDownloader struct {
 // Returns a string path to the location where the file was downloaded and a verification
 // (if provenance was verified), or an error if something bad happened.
 func (c *ChartDownloader) DownloadTo(ref, version, dest string) (string, *provenance.Verification, error) {
+	// ResolveChartVersion and the code below append the options of this one
+	// download (repository URL, credentials, TLS settings) to c.Options. They
+	// must not stay there: a later download made with the same ChartDownloader
+	// may be from another repository, and would otherwise send this
+	// repository's credentials to it.
+	callerOptions := c.Options[:len(c.Options):len(c.Options)]
+	defer func() { c.Options = callerOptions }()
+
 	u, err := c.ResolveChartVersion(ref, version)
 	if err != nil {
 		return "", nil, err
